@@ -153,6 +153,11 @@ def run_check(repo, chk: Check, tier, prefix):
                 results.append("unknown")
                 info = {"solver_output": f"solver budget of this check ({solver_budget_ms // 1000} s) exhausted"}
                 continue
+            if o.meta.get("undecided"):
+                # the sidecar contract could not state this clause on this path (e.g. its loop contract was not exercised)
+                results.append("unknown")
+                info = {"reason": "sidecar contract does not match the current code: " + str(o.meta["undecided"])}
+                continue
             if o.meta.get("path_infeasible"):
                 vac += 1  # the whole path is infeasible under the full path condition: vacuous instance
                 continue
